@@ -107,6 +107,8 @@ def gen_spec(rng: random.Random, feat=None):
                 cls = f'T{mi}x{ti}'
             used_names.add(snake(cls))
             ts = {'cls': cls, 'data_kind': rng.choice(feat['data_kinds']), 'params': [], 'inputs': []}
+            if ts['data_kind'] == 'memory' and rng.random() < 0.4:
+                ts['mem_opt'] = True        # data class with an optional constructor argument
             kindr = rng.random()
             if feat['module_tasks'] and kindr < 0.15:
                 ts['base'] = 'ModuleTask'
